@@ -630,6 +630,16 @@ def run(ctx):
               '<b:Item><b:label>g</b:label><a:doc><a:label>h</a:label></a:doc></b:Item></doc>')
     for k, (oname, opts, mut) in enumerate(osets):
         generation_case(ctx, "xml-sample", {"h.xml": two_ns}, ["h.xml"], oname, opts, mut, traces, f"two-ns-same-name-{k}", must_generate=True)
+    # a compound field NAMED after its members (a_Or_b) next to fields that spell that name already
+    coll = ('<xs:schema xmlns:xs="http://www.w3.org/2001/XMLSchema" targetNamespace="urn:h" xmlns:t="urn:h" elementFormDefault="qualified">'
+            '<xs:complexType name="Base"><xs:sequence><xs:element name="c_or_d" type="xs:string" minOccurs="0"/></xs:sequence></xs:complexType>'
+            '<xs:element name="root"><xs:complexType><xs:complexContent><xs:extension base="t:Base"><xs:sequence>'
+            '<xs:element name="aOrB" type="xs:string" minOccurs="0"/><xs:element name="a-Or-b" type="xs:int" minOccurs="0"/>'
+            '<xs:choice maxOccurs="unbounded"><xs:element name="a" type="xs:int"/><xs:element name="b" type="xs:string"/></xs:choice>'
+            '<xs:choice maxOccurs="unbounded"><xs:element name="c" type="xs:int"/><xs:element name="d" type="xs:string"/></xs:choice>'
+            '</xs:sequence><xs:attribute name="a_or_b" type="xs:string"/></xs:extension></xs:complexContent></xs:complexType></xs:element></xs:schema>')
+    for k, (oname, opts) in enumerate((("compound", {"compound_fields.enabled": True}), ("compound-frozen", {"compound_fields.enabled": True, "format.frozen": True}))):
+        generation_case(ctx, "xsd", {"h.xsd": coll}, ["h.xsd"], oname, opts, None, traces, f"compound-name-collision-{k}", must_generate=True)
     # the finding F47 is exercised by its reproducer in every run (and its counterpart, the same key naming a VALUE)
     generation_case(ctx, "json-sample", {"h.json": '{"a\\nb": {"k": 1}}'}, ["h.json"], "namespaces-camel", osets[5][1], osets[5][2], traces, "f47")
     generation_case(ctx, "json-sample", {"h.json": '{"a\\nb": 1, "c\\"d": [2]}'}, ["h.json"], "namespaces-camel", osets[5][1], osets[5][2], traces, "f47-ok")
